@@ -671,6 +671,17 @@ struct ConvertOptions {
     in_calc: bool,
 }
 
+/// Whether the arguments of a function are calculations
+/// (where the `+` and `-` operators must be surrounded by whitespace).
+fn is_math_function(name: &str) -> bool {
+    [
+        "calc", "min", "max", "clamp", "round", "mod", "rem", "sin", "cos", "tan", "asin", "acos",
+        "atan", "atan2", "pow", "sqrt", "hypot", "log", "exp", "abs", "sign",
+    ]
+    .iter()
+    .any(|x| name.eq_ignore_ascii_case(x))
+}
+
 fn convert_rpx_in_block(
     input: &mut StepParser,
     ss: &mut StyleSheetTransformer,
@@ -710,7 +721,7 @@ fn convert_rpx_in_block(
                     }
                     Token::Function(func) => {
                         let func: &str = func;
-                        let config = if in_calc || func.eq_ignore_ascii_case("calc") {
+                        let config = if in_calc || is_math_function(func) {
                             Some(ConvertOptions { in_calc: true })
                         } else {
                             None
